@@ -426,6 +426,7 @@ Definition affine (a b : Z) (rows : list Z) : list Z := map (fun x => a * x + b)
 Inductive C15_case :=
 | CPadded (bs nb a b : Z) (ds : list (Z * Z * nat))
 | CShuffle (B : Z) (code : list nat) (draws : list Z) (n : nat)
+| CShuffleL (B : Z) (code : list nat) (draws : list Z) (src : list Z)     (* any source, duplicates included *)
 | CShufBatch (bs B a b : Z) (code : list nat) (draws : list Z) (ds : list (Z * Z * nat))
 | CRepeat (container : bool) (n : nat) (calls : nat)
 | CRepeatOps (container : bool) (n : nat) (ops : list bool)
@@ -453,6 +454,11 @@ Definition C15_agree (c : C15_case) (o : C15_obs) : bool :=
     end
   | CShuffle B code draws n, OShuffle out =>
     match buffered_shuffle B code draws (idx n) false with
+    | SOk l => lz_eqb l out
+    | _ => false
+    end
+  | CShuffleL B code draws src, OShuffle out =>
+    match buffered_shuffle B code draws src false with
     | SOk l => lz_eqb l out
     | _ => false
     end
